@@ -192,9 +192,9 @@ func c34HostileVarint(rng *rand.Rand, actual int64, elem int64) c34Var {
 		return c34Var{v: actual + 1}
 	case x < 30:
 		return c34Var{v: actual - 1}
-	case x < 44:
+	case x < 46:
 		return c34Var{v: 65536 + rng.Int63n(1<<20)/elem}
-	case x < 47:
+	case x < 47: // rare: touching > 64 MiB costs ~0.5 s of page faults per call on this kind of VM; the fixed cases above cover every site once
 		return c34Var{v: (70_000_000 + rng.Int63n(30_000_000)) / elem} // just above 64 MiB once multiplied by the element size
 	case x < 62:
 		return c34Var{v: 1 << 62}
@@ -229,7 +229,10 @@ func c34HostileInt32(rng *rand.Rand, actual int32) int32 {
 	if rng.Intn(100) < c34Giant {
 		return []int32{1<<31 - 1, 200_000_000}[rng.Intn(2)]
 	}
-	return []int32{0, -1, 1, actual + 1, actual - 1, 2, 700_000, 3, -1 << 31, 65536, -1000}[rng.Intn(11)]
+	if rng.Intn(30) == 0 {
+		return 700_000
+	}
+	return []int32{0, -1, 1, actual + 1, actual - 1, 2, 3, -1 << 31, 65536, -1000}[rng.Intn(10)]
 }
 
 // c34Mutate applies 1-2 structure-aware mutations and returns a label naming them.
@@ -627,7 +630,10 @@ func TestVerifC34Gen(t *testing.T) {
 		case 0:
 			addIdx("idx/valid", c34Index(es, int32(ne), 100))
 		case 1, 2:
-			c := []int32{-1, 0, int32(ne) + 1, int32(ne) - 1, 5_000_000, 65536, 7, 100}[rng.Intn(8)]
+			c := []int32{-1, 0, int32(ne) + 1, int32(ne) - 1, -2, 65536, 7, 100}[rng.Intn(8)]
+			if rng.Intn(12) == 0 {
+				c = 5_000_000
+			}
 			if rng.Intn(100) < c34Giant {
 				c = 1<<31 - 1
 			}
